@@ -180,6 +180,10 @@ pub struct Case {
     pub ops: Vec<Op>,
     /// C16: (sender, message) pairs compared on the state reached by `ops`
     pub probes: Vec<Probe>,
+    /// the chain-level (wasm module) admin of the proxy - who may migrate it; an actor that need not be in
+    /// the proxy's own admin list. The role gives no rights inside the contract.
+    #[serde(default)]
+    pub chain_admin: Option<u8>,
 }
 
 // ---------------------------------------------------------------- strategies
@@ -464,7 +468,7 @@ pub fn case_strategy(prop: &str, tier: Tier) -> BoxedStrategy<Case> {
                 p
             });
             let probes = proptest::collection::vec(probe(subkeys), n_probes..=n_probes);
-            (admin_list(), proptest::bool::weighted(p_mutable), ops, probes).prop_map(move |(admins, mutable, ops, probes)| Case { subkeys, admins, mutable, ops, probes })
+            (admin_list(), proptest::bool::weighted(p_mutable), ops, probes, proptest::option::weighted(0.5, 0u8..N_ACTORS as u8)).prop_map(move |(admins, mutable, ops, probes, chain_admin)| Case { subkeys, admins, mutable, ops, probes, chain_admin })
         })
         .boxed()
 }
@@ -901,6 +905,7 @@ fn differential(prop: &str, w: &World, pre: &Obs, t: &Track, sender: usize, msg:
 
 pub fn run_case(prop: &str, case: &Case, ctx: &mut CaseCtx) -> Result<(), Violation> {
     let mut w = World::new(case.subkeys);
+    w.d.chain_admin = case.chain_admin.map(|i| w.senders[i as usize % N_ACTORS].clone());
     let qerr = |e: String| v(prop, "query-failed", format!("a query failed or panicked: {e}"));
     ctx.count(if case.subkeys { "cases_subkeys" } else { "cases_whitelist" });
 
@@ -1792,5 +1797,6 @@ pub fn decode_case(prop: &str, u: &mut arbitrary::Unstructured) -> Case {
             Probe { sender, msg: d_msg(u, MsgWeights { send: 30, burn: 4, staking: 3, distr: 3, other: 1 }) }
         })
         .collect();
-    Case { subkeys, admins, mutable, ops, probes }
+    let chain_admin = if arb_bool(u, 1, 2) { Some(arb_below(u, N_ACTORS) as u8) } else { None };
+    Case { subkeys, admins, mutable, ops, probes, chain_admin }
 }
